@@ -533,13 +533,13 @@ func PathStrings(rng *rand.Rand, thorough bool, nrand int, each func(kind string
 			}
 		}
 	}
-	alphabet := []byte("019x/.pa")
+	alphabet := []byte("09x/.X")
 	if thorough {
 		alphabet = []byte("0129x/.pa X+-d\x00\xff")
 	}
 	for vi, p := range valid {
 		each("valid", p)
-		if !thorough && vi%3 != 0 {
+		if !thorough && vi%7 != 0 {
 			continue
 		}
 		for i := 0; i < len(p); i++ {
@@ -551,7 +551,9 @@ func PathStrings(rng *rand.Rand, thorough bool, nrand int, each func(kind string
 			each("delete", p[:i]+p[i+1:])
 			each("trunc", p[:i])
 			for _, c := range []byte("0/x") {
-				each("insert", p[:i]+string(c)+p[i:])
+				if thorough || c != 'x' {
+					each("insert", p[:i]+string(c)+p[i:])
+				}
 			}
 		}
 		each("extend", p+"/")
